@@ -417,7 +417,16 @@ def indexed_cases(draw):
 
 # --------------------------------------------------------------------------- selections seen from a pixel-aligned dataset
 
+def build_aligned(spec):
+    """-> dict(a, b, make, expected_full, mask_a, kind, perm, pad, shape_b): see fn_aligned"""
+    return _aligned(spec, None, build_only=True)
+
+
 def fn_aligned(spec, rec):
+    return _aligned(spec, rec)
+
+
+def _aligned(spec, rec, build_only=False):
     """A selection defined on dataset A, evaluated (with a view) on dataset B whose pixel axes are linked one-to-one to A's,
     possibly in another order.  Two oracles: the view of the full mask (this property), and the full mask itself equals A's mask
     with the axes permuted (what 'selects exactly the elements whose derived values satisfy it' means for linked pixel axes)."""
@@ -435,7 +444,7 @@ def fn_aligned(spec, rec):
     pad = [0] * nd if k == "slice" else (list(spec.get("pad") or []) + [0] * nd)[:nd]      # B may extend beyond A's grid
     shape_b = tuple(shape_a[perm[i]] + pad[i] for i in range(nd))
     a = Data(label="A", u=np.arange(int(np.prod(shape_a)), dtype=float).reshape(shape_a))
-    b = Data(label="B", v=np.zeros(shape_b))
+    b = Data(label="B", v=(np.arange(int(np.prod(shape_b)), dtype=float) * 3 % 7 - 2).reshape(shape_b))
     dc = DataCollection([a, b])
     for i in range(nd):
         dc.add_link(LinkSame(a.pixel_component_ids[perm[i]], b.pixel_component_ids[i]))
@@ -488,6 +497,8 @@ def fn_aligned(spec, rec):
         def make():
             return RoiSubsetState(xatt=a.pixel_component_ids[ax], yatt=a.pixel_component_ids[ay],
                                   roi=RectangularROI(xmin=x0 - 0.5, xmax=x1 + 0.5, ymin=y0 - 0.5, ymax=y1 + 0.5))
+    if build_only:
+        return {"a": a, "b": b, "make": make, "expected_full": expected_full, "mask_a": mask_a, "kind": k, "perm": perm, "pad": pad, "shape_b": shape_b}
     vs = spec["view"]
     view = gen.build_view(vs, shape_b)
 
